@@ -178,7 +178,7 @@ class Unit:
             self.walk(body, sc, depth + 1)
             results.append(sc)
         names = {n for sc in results for n in sc if sc.get(n) != scope.get(n)}
-        for n in names:
+        for n in sorted(names):
             all_rebound = len(results) >= 2 and all(sc.get(n) != scope.get(n) for sc in results)
             versions = {sc.get(n, n) for sc in results} | ({scope.get(n, n)} if (n not in skip_merge and not all_rebound) else set())
             if len(versions) == 1:
@@ -186,7 +186,7 @@ class Unit:
                 continue
             k = self.counter = getattr(self, "counter", 0) + 1
             merged = f"{n}#m{k}"
-            for ver in versions:
+            for ver in sorted(versions):
                 self.stmts.append(("share", self.v(merged), self.v(ver)))
             scope[n] = merged
 
